@@ -174,12 +174,20 @@ func raceTail(from int64) string {
 	return s
 }
 
+// newVM: a Runtime with a call-depth limit (a generated program may recurse without bound: that is a StackOverflowError in
+// the isolated run and in every concurrent run alike, not a host that grows its stack for minutes)
+func newVM() *goja.Runtime {
+	vm := goja.New()
+	vm.SetMaxCallStackSize(300)
+	return vm
+}
+
 // conc runs the jobs concurrently (one goroutine and one Runtime each), released by a barrier
 func conc(jobs []func(vm *goja.Runtime) string) []string {
 	res := make([]string, len(jobs))
 	vms := make([]*goja.Runtime, len(jobs))
 	for i := range vms {
-		vms[i] = goja.New()
+		vms[i] = newVM()
 	}
 	var start, done sync.WaitGroup
 	start.Add(1)
@@ -350,7 +358,7 @@ func main() {
 							res = fmt.Sprint("PANIC: ", r)
 						}
 					}()
-					v, err := goja.New().RunProgram(prg0)
+					v, err := newVM().RunProgram(prg0)
 					if err != nil {
 						return "ERR: " + err.Error()
 					}
